@@ -13,6 +13,20 @@ def fam_statements(n):
     return "x = 0\n" + "x += 1\n" * n + "print(x)\n"
 
 
+# a long run of statements AFTER an early exit of the same block (the rest of the block is guarded by the exit's flag:
+# one guard for the whole rest, not one nesting level per statement)
+def fam_guard_return(n):
+    return "def f(x):\n    t = 0\n    if x:\n        return -1\n" + "    t += 1\n" * n + "    return t\nprint(f(0))\n"
+
+
+def fam_guard_continue(n):
+    return "t = 0\nfor i in range(2):\n    if i:\n        continue\n" + "    t += 1\n" * n + "print(t)\n"
+
+
+def fam_guard_break(n):
+    return "t = 0\nwhile t < 5:\n    if t:\n        break\n" + "    t += 1\n" * n + "print(t)\n"
+
+
 def fam_elif(n):
     return (f"x = {n - 1}\nif x == 0:\n    r = 0\n" + "".join(f"elif x == {i}:\n    r = {i}\n" for i in range(1, n))
             + "else:\n    r = -1\nprint(r)\n")
@@ -80,7 +94,8 @@ def fam_position(pos):
 
 FAMILIES = {"statements": fam_statements, "elif": fam_elif, "binop": fam_binop, "calls": fam_calls, "attrs": fam_attrs,
             "attr_target": fam_attr_target, "nested_if": fam_nested_if, "nested_for": fam_nested_for, "nested_def": fam_nested_def,
-            "pattern": fam_pattern}
+            "pattern": fam_pattern, "guard_return": fam_guard_return, "guard_continue": fam_guard_continue,
+            "guard_break": fam_guard_break}
 for _pos in POSITIONS:
     FAMILIES["chain@" + _pos] = fam_position(_pos)
 SCHEDULE = {
@@ -93,6 +108,9 @@ SCHEDULE = {
 }
 
 
+for _g in ("guard_return", "guard_continue", "guard_break"):
+    SCHEDULE["quick"][_g] = [10, 300, 3000]
+    SCHEDULE["thorough"][_g] = [10, 100, 300, 1000, 3000]
 for _tier, _sizes in (("quick", [10, 300, 900]), ("thorough", [10, 100, 300, 600, 900])):
     for _pos in POSITIONS:
         SCHEDULE[_tier]["chain@" + _pos] = _sizes
@@ -151,7 +169,7 @@ def known_class(fam, n, tr, status, detail):
     """K-ast-unparse-recursion: CPython's recursive ast.unparse; K-chain-call-depth: one call nesting level per statement"""
     if tr[0] == "ast.unparse" and status == "convert-recursion" and detail == "ast.py":
         return "K-ast-unparse-recursion"
-    if tr[1] == "chain_call" and tr[0] == "oneliner" and fam in ("statements",) and status in ("compile-recursion", "run-recursion") and n >= 1000:
+    if tr[1] == "chain_call" and tr[0] == "oneliner" and fam in ("statements", "guard_return", "guard_continue", "guard_break") and status in ("compile-recursion", "run-recursion") and n >= 1000:
         return "K-chain-call-depth"
     return None
 
